@@ -634,7 +634,7 @@ func (p *pipe) _backgroundRead() (err error) {
 			if multi == nil {
 				multi = ones
 			}
-		} else if ff > 0 && cmds.IsStaticTTL(multi[ff]) {
+		} else if p.cache != nil && ff > 0 && cmds.IsStaticTTL(multi[ff]) {
 			// ToStaticTTL path: msg is the cacheable reply directly (no
 			// EXEC unwrap). Must be checked before the standard CSC
 			// gate below — an array reply of length >= 2 on that gate's
@@ -651,7 +651,7 @@ func (p *pipe) _backgroundRead() (err error) {
 				cp.attrs = cacheMark
 				msg.setExpireAt(p.cache.Update(ck, cc, cp))
 			}
-		} else if ff >= 4 && len(msg.values()) >= 2 && multi[0].IsOptIn() { // if unfulfilled multi commands are lead by opt-in and get a success response
+		} else if p.cache != nil && ff >= 4 && len(msg.values()) >= 2 && multi[0].IsOptIn() { // if unfulfilled multi commands are lead by opt-in and get a success response
 			now := time.Now()
 			if cacheable := Cacheable(multi[ff-1]); cacheable.IsMGet() {
 				cc := cmds.MGetCacheCmd(cacheable)
